@@ -451,9 +451,7 @@ static const MPT_STRUCT(named_traits) *_named_find(const char *name, size_t len)
  */
 extern const MPT_STRUCT(named_traits) *mpt_named_traits(const char *name, int len)
 {
-	const struct named_traits_chunk *ext;
-	
-	int i;
+	const MPT_STRUCT(named_traits) *elem;
 	
 	if (!name || !len || !*name) {
 		errno = EINVAL;
@@ -461,40 +459,15 @@ extern const MPT_STRUCT(named_traits) *mpt_named_traits(const char *name, int le
 	}
 	/* exact length match for names */
 	if (len >= 0) {
-		if (!(ext = meta_types)) {
-			_meta_init();
-			ext = meta_types;
-		}
-		while (ext) {
-			for (i = 0; i < ext->used; i++) {
-				const MPT_STRUCT(named_traits) *elem = ext->traits[i];
-				if (elem->name
-				 && (len == (int) strlen(elem->name))
-				 && !strncmp(name, elem->name, len)) {
-					return elem;
-				}
-			}
-			ext = ext->next;
-		}
-		if (!interface_types) {
-			_interfaces_init();
-		}
-		for (i = 0; i < interface_pos; i++) {
-			const MPT_STRUCT(named_traits) *elem;
-			if ((elem = interface_types[i])
-			 && elem->name
-			 && (len == (int) strlen(elem->name))
-			 && !strncmp(name, elem->name, len)) {
-				return elem;
-			}
+		if ((elem = _named_find(name, len))) {
+			return elem;
 		}
 		errno = EINVAL;
 		return 0;
 	}
 	/* full names without length limit */
-	if (!(len = strlen(name))) {
-		errno = EINVAL;
-		return 0;
+	if ((elem = _named_find(name, strlen(name)))) {
+		return elem;
 	}
 	/* resolve shortnames */
 	if (!strcmp(name, "log")) {
@@ -509,27 +482,12 @@ extern const MPT_STRUCT(named_traits) *mpt_named_traits(const char *name, int le
 	else if (!strcmp(name, "meta")) {
 		name = "metatype";
 	}
-	if (!(ext = meta_types)) {
-		_meta_init();
-		ext = meta_types;
+	else {
+		errno = EINVAL;
+		return 0;
 	}
-	while (ext) {
-		for (i = 0; i < ext->used; i++) {
-			const MPT_STRUCT(named_traits) *elem = ext->traits[i];
-			if (elem->name && !strcmp(name, elem->name)) {
-				return elem;
-			}
-		}
-		ext = ext->next;
-	}
-	if (!interface_types) {
-		_interfaces_init();
-	}
-	for (i = 0; i < interface_pos; i++) {
-		const MPT_STRUCT(named_traits) *elem = interface_types[i];
-		if (elem && elem->name && !strcmp(name, elem->name)) {
-			return elem;
-		}
+	if ((elem = _named_find(name, strlen(name)))) {
+		return elem;
 	}
 	errno = EINVAL;
 	return 0;
